@@ -274,12 +274,12 @@ Section WithFacts.
       /\ registry_for (st_table s) (cfg_str c1 "base-currency") = POk (st_reg s).
   Proof.
     unfold startup.
-    destruct (read_config (fs PConfig) []) as [[c1 w1]|]; [|discriminate].
-    destruct (load_currency_data pf c1 fs) as [[[t b] w2]|]; [|discriminate].
-    destruct (registry_for t (cfg_str c1 "base-currency")) as [r|]; [|discriminate].
-    destruct (read_config (fs PConfig) c1) as [[c2 w3]|]; [|discriminate].
+    destruct (read_config (fs PConfig) []) as [[c1 w1]|] eqn:R1; [|discriminate].
+    destruct (load_currency_data pf c1 fs) as [[[t b] w2]|] eqn:L; [|discriminate].
+    destruct (registry_for t (cfg_str c1 "base-currency")) as [r|] eqn:G; [|discriminate].
+    destruct (read_config (fs PConfig) c1) as [[c2 w3]|] eqn:R2; [|discriminate].
     intros [= <-]. cbn [st_cfg st_table st_from_file st_printed st_reg]. exists c1, w1, w3.
-    repeat split; reflexivity.
+    rewrite R2, L, G. repeat split; reflexivity.
   Qed.
 
   (* reading the file twice (ka.config.get at import, then main) gives what one reading gives *)
@@ -322,9 +322,6 @@ Section WithFacts.
     unfold line_effect. rewrite (split1_app ch_eq k0 v0 Hk), Hp, Hn, Hb. reflexivity.
   Qed.
 
-  Definition config_unusable (s : fstate) : Prop :=
-    match s with Bytes true _ => False | _ => True end.
-
   Theorem defaults_for_unreadable pf fs :
     config_unusable (fs PConfig) ->
     exists s, startup pf fs = Started s /\ st_cfg s = [] /\
@@ -338,15 +335,6 @@ Section WithFacts.
     { destruct (fs PConfig) as [| |e|[|] text]; try contradiction; congruence. }
     split; [exact E|]. intros name. rewrite E. reflexivity.
   Qed.
-
-  Definition currency_unusable (pf : pyfloat_t) (s : fstate) : Prop :=
-    match s with
-    | Bytes true text => match parse_currency_data pf (universal_newlines text) with
-                         | PTable (_ :: _) => False
-                         | _ => True
-                         end
-    | _ => True
-    end.
 
   Theorem currency_fallback pf c fs :
     currency_unusable pf (fs (path_of c "currency-path")) ->
@@ -403,9 +391,9 @@ Section WithFacts.
   Proof.
     pose proof HP as H. unfold props_okb in H.
     destruct (prop_of "precision") as [p|]; [|discriminate].
-    repeat (apply andb_prop in H as [H _]).
-    exists p. split; [reflexivity|]. destruct (cp_num p); [|discriminate]. split; [reflexivity|].
-    cbn [andb] in H. destruct (negb (cp_bool p)); [|discriminate]. cbn [andb] in H.
+    do 5 (apply andb_prop in H as [H _]).
+    apply andb_prop in H as [H H3]. apply andb_prop in H as [H1 H2].
+    exists p. split; [reflexivity|]. split; [exact H1|].
     destruct (default_of p) as [z| |]; try discriminate. exists z. split; [reflexivity|]. lia.
   Qed.
 
@@ -466,8 +454,11 @@ Section WithFacts.
       by (intros e; exact (HC_hs (WIo e))).
     assert (Hopen : forall s, (exists u, open_for_write s w = POk u) \/
                               (exists e, open_for_write s w = PRaise (ioerr_name e))).
-    { intros s. unfold open_for_write, os_step. destruct s as [| |e|b t]; eauto;
-        destruct (we_open w); eauto. }
+    { intros s. unfold open_for_write, os_step. destruct s as [| |e|b t].
+      - destruct (we_open w); eauto.
+      - right. exists EIsADirectory. reflexivity.
+      - right. exists e. reflexivity.
+      - destruct (we_open w); eauto. }
     assert (Hwrite : (exists u, write_step (we_write w) = POk u) \/
                      (exists e, write_step (we_write w) = PRaise (wexn_name e))).
     { unfold write_step. destruct (we_write w); eauto. }
